@@ -326,10 +326,13 @@ impl Session {
                 for _ in 0..max(0, spawn_num) {
                     self.spawn_peer_handler();
                 }
+
+                // Tracker task ends after successful response
+                self.kill_tracker().await;
             }
+            // Tracker task is still running (it will retry), so there is nothing to wait for
             TrackerCmd::Fail(e) => self.log(format!("Tracker fail: {}", e)).await,
         }
-        self.kill_tracker().await;
     }
 
     async fn handle_extractor_cmd(&mut self, cmd: ExtractorCmd) {
